@@ -211,8 +211,20 @@ def payload_id(o):
 
 def _fp_obj(x):
     """Typed fingerprint of a Python object (element of an object array, payload): the TYPE is part of it, so a
-    list that comes back as an ndarray, or a dict wrapped into a 0-d array, is a difference. No addresses."""
-    if x is None or isinstance(x, (str, int, float, bool, np.generic)):
+    list that comes back as an ndarray, or a dict wrapped into a 0-d array, is a difference -- while a value that
+    is an instance of the submitted type and equal to it (np.str_ for str) is the same. No addresses."""
+    # scalars: an instance of the Python type, equal in value, is the same value (np.str_ is a str, np.float64
+    # is a float: NumPy hands those out when a row of a '<U' / float array is taken); NumPy scalars that are not
+    # instances of a Python type keep their own type name
+    if isinstance(x, str):
+        return ("str", str(x))
+    if isinstance(x, (bool, np.bool_)):
+        return ("bool", bool(x))
+    if isinstance(x, int):
+        return ("int", int(x))
+    if isinstance(x, float):
+        return ("float", float(x).hex())
+    if x is None or isinstance(x, np.generic):
         return (type(x).__name__, repr(x))
     if isinstance(x, Payload):
         return ("Payload", x.pid)
@@ -1713,13 +1725,13 @@ def check_readpaths(w, where):
                 return bad(f"stored meta[{i}] = {x!r} ({type(x).__name__}) is not a submitted payload "
                            f"(submitted: {w.registry.get(pid)})")
             t0, t1 = d["tags"][i]
-            if not isinstance(t0, Payload) or t0.pid != pid or t1 != f"t{pid}" or type(t1) is not str:
+            if not isinstance(t0, Payload) or t0.pid != pid or t1 != f"t{pid}" or not isinstance(t1, str):
                 return bad(f"stored tags[{i}] = {d['tags'][i]!r} does not belong to the candidate of meta[{i}] "
                            f"(payload id {pid})")
     if w.objsol:
         for i in range(n):
             row = d["solution"][i]
-            if any(type(x) is not str for x in row) or \
+            if any(not isinstance(x, str) for x in row) or \
                     [x.split("_")[-1] for x in row] != [str(j) for j in range(len(row))] or \
                     len({x.rsplit("_", 1)[0] for x in row}) != 1:
                 return bad(f"stored object solution {row!r} is not a submitted solution")
